@@ -1011,6 +1011,20 @@ Proof. reflexivity. Qed.
 
 (* ---------- the adaptation mutex *)
 
+Lemma stub_update_has_no_deadline : stub_update_deadline = None.
+Proof. vm_compute. reflexivity. Qed.
+
+(* however long the call-back takes or waits for the adaptation mutex, a started stub returns what
+   the relay returns *)
+Lemma stub_update_any_duration {U} (us : list U) (cb : callback U) (dur : N) :
+  stub_update_timed stub_update_deadline true us cb dur = relay_update us cb.
+Proof. rewrite stub_update_has_no_deadline. reflexivity. Qed.
+
+(* … whereas under a deadline d a call-back that takes d or longer loses its result *)
+Lemma stub_update_deadline_loses_result {U} (us : list U) (cb : callback U) (d dur : N) :
+  (d <= dur)%N -> stub_update_timed (Some d) true us cb dur = (([], Some "context deadline exceeded"), [us]).
+Proof. intros H. unfold stub_update_timed. apply N.leb_le in H. rewrite H. reflexivity. Qed.
+
 Definition mutex_inv (s : mstate) : Prop :=
   (forall a w, pcs s a = Running w -> holder s = Some a) /\
   (forall a, holder s = Some a -> exists w, pcs s a = Running w).
